@@ -42,6 +42,9 @@ fn run(a: &[String]) -> String {
         "inspector_balance" => scenarios::inspector_balance(),
         "evm_leak" => scenarios::evm_leak(&a[1]),
         "transfer_sum" => scenarios::transfer_sum(&a[1]),
+        "block_state_kernel" => scenarios::block_state_kernel(),
+        "create_guard" => scenarios::create_guard(),
+        "create_collision" => scenarios::create_collision(&a[1]),
         "warm_kernel" => scenarios::warm_kernel(),
         "cachedb_read_policy" => scenarios::cachedb_read_policy(),
         "static_value_call" => scenarios::static_value_call(&a[1]),
